@@ -667,7 +667,7 @@ pub fn run(c: &mut Ctx) {
     corrupted_signer_key_case(c);
     c.note(
         "rule",
-        json!("One case per (N in {1,2,3,5,8,13}, key pair, message number). Message entries from EDGE={0,1,q-1,small,2^63-1,2^63,random,2^63|r,2^64-1} (numbers 0-8 constant class, 9-17 cyclic layouts, 18+ random class per coordinate); conjunction commitment scalars none / every other one / all with a zero (by message number); challenge over the first message alone / plus the key / plus a context string. Honest: builder -> challenge -> proof, the verifier recomputes the challenge from the proof, verify_knowledge_of_opening must be Some, its value is blind-signed and unblinded with message_blinding_factor(); ps_verify_ref (and Signature::verify) must accept the requester's message and reject one change per coordinate (+1 / random / other EDGE value / -1, rotating). Extras: the proof's commitment atom equals pedersen_ref_g1(g1, Y1..YN; message, blinding factor) and the bytes of Message::blind. Tampered: every non-length atom of the proof bytes replaced by another valid value, +1 (scalars), identity and negation (points), the same atom of a second honest request; commitments exchanged; challenge with extra bytes / other variant / of the second request / over another key; the whole second proof; another public key: all must give None (second request under its own challenge is the positive twin). Distinct = (N, key, message classes, commitment-scalar variant, challenge variant, check or tamper@atom)."),
+        json!("One case per (N in {1,2,3,5,8,13}, key pair, message number). Message entries from EDGE={0,1,q-1,small,2^63-1,2^63,random,2^63|r,2^64-1} (numbers 0-8 constant class, 9-17 cyclic layouts, 18+ random class per coordinate); conjunction commitment scalars none / every other one / all with a zero (by message number); challenge over the first message alone / plus the key / plus a context string. Honest: builder -> challenge -> proof, the verifier recomputes the challenge from the proof, verify_knowledge_of_opening must be Some, its value is blind-signed and unblinded with message_blinding_factor(); ps_verify_ref (and Signature::verify) must accept the requester's message and reject one change per coordinate (+1 / random / other EDGE value / -1, rotating). Extras: the proof's commitment atom equals pedersen_ref_g1(g1, Y1..YN; message, blinding factor) and the bytes of Message::blind. Tampered: every non-length atom of the proof bytes replaced by another valid value, +1 (scalars), identity and negation (points), the same atom of a second honest request; commitments exchanged; challenge with extra bytes / other variant / of the second request / over another key; the whole second proof; another public key: all must give None (second request under its own challenge is the positive twin). Distinct = (N, key, message classes, commitment-scalar variant, challenge variant, check or tamper@atom). Added later: zero-randomiser signer, decode probe of VerifiedBlindedMessage, order-3 shift tamper, corrupted signer key. +1/-1 on a pair of coordinates and exchanged coordinates; the request about the identity element; second verification of the same request."),
     );
     let keys = c.tier.pick(3usize, 8);
     let msgs = c.tier.pick(48usize, 200);
